@@ -1302,6 +1302,7 @@ static void c_loghandler (void)
 	handler_on = !strcmp (t, "on");
 	QSlog_set_handler (handler_on ? log_handler : 0, 0);
 }
+static void c_set_precision (void) { int prec = ni (); BEGIN ("set_precision"); QSexact_set_precision (prec); ev_int ("rc", 0); END (); }
 static void free_all (void) { int i; for (i = 0; i < NSLOT; i++) { free_slot_p (i); free_slot_b (i); } }
 static void c_case (void)
 {
@@ -1327,7 +1328,7 @@ static cmd_t cmds[] = {
 	C (read_and_load_basis), C (basis_optimalstatus), C (basis_dualstatus), C (verify),
 	C (tableau), C (tableau_direct), C (get_binv_row), C (get_tableau_row),
 	C (write_prob), C (write_prob_file), C (read_prob), C (get_prob), C (copy), C (copy_dbl), C (copy_mpf), C (free),
-	C (storecheck), C (cycle_mark), C (capture), C (loghandler), C (case), C (version),
+	C (storecheck), C (cycle_mark), C (capture), C (loghandler), C (case), C (version), C (set_precision),
 	{ 0, 0 }
 };
 
